@@ -22,6 +22,7 @@ func init() {
 			{ID: "C08-R7", Doc: "worker looks tasks up by name over the closure of the roots", Run: c08r7},
 			{ID: "C08-R9", Doc: "the shape methods of a Slice read only construction-time data", Run: c08r9},
 			{ID: "C08-R10", Doc: "a composed pragma answers \"some element asks for it\" (Materialize, Exclusive are disjunctions over the list)", Run: c08r10},
+			{ID: "C16-R9", Doc: "the frozen compile environment arrives frozen: GobDecode assigns no travelling field (shared)", Run: c16r9},
 			{ID: "C16-R5", Doc: "a worker receives the invocations behind Result arguments dependencies-first, so it can build the graph at all (shared)", Run: c16r5},
 			{ID: "C05-R7", Doc: "memoised compilations are keyed by every partitioning field (shared)", Run: c05r7},
 			{ID: "C12-R3", Doc: "reuse compiles to the old tasks or re-shuffles of them; reused results are recognised through wrappers (shared)", Run: c12r3},
